@@ -4,19 +4,21 @@ C08 — "File journal equals an in-memory list for any operations, and is kill-s
 
 All statements are about the functions the `journal` driver executes (`PSO.Journal.create`,
 `FJ.step`, `run`, `openDisk`, `crashDisk`, `rfWrite`), for the code with
-`fixes/D08-journal-grow-until-fits.diff` applied.
+`fixes/D08-journal-grow-until-fits.diff` and
+`fixes/D15-journal-head-drop-by-atomic-replace.diff` applied.
 
 Vocabulary (defined in `PSO.Model.Journal`): `OkFrom l ops` = the exact condition under which no
 operation hits a `struct.error` (every appended index/term is a `u64`, the end offset stays a
 `u32`); `WithinLimits ops` = the simple sufficient condition "40 + all bytes ever appended < 2^32";
 `CrashSpec old op r` = what the property demands of the entries `r` found after a kill inside `op`;
 `crashDisk d ps k t` = the first `k` primitive writes of `ps` happened and `t` bytes of the next
-(record stores are byte-torn; the aligned 4-byte header store, resize, tmp create and move are atomic).
+(record stores are byte-torn; the aligned 4-byte header store, resize, tmp create, moves/renames are atomic).
 
-The full statement `crash_contiguous` (CrashSpec for EVERY operation) is FALSE of the code because of
-defect D15 (`deleteEntriesTo` = `clear()` + re-`add`): see `crash_headdrop_counterexample`. It is proved
-for every operation except the head drop (`crash_contiguous_partial`); for the head drop the weaker
-`crash_headdrop_range` holds.
+Defect D15 (`deleteEntriesTo` = `clear()` + re-`add` in place) is repaired in the code
+(`fixes/D15-journal-head-drop-by-atomic-replace.diff`: kept entries are written to `<journal>.tmp`, which
+replaces the journal by one atomic rename); the model follows the repaired code, and `crash_contiguous` is
+the FULL statement for all operations. `old_headdrop_counterexample` documents the old sequence
+(`FJ.delToOld`, not executed by `FJ.step`).
 -/
 namespace PSO.C08
 open PSO PSO.Journal
@@ -33,10 +35,11 @@ holds exactly the entries of the in-memory list, and closing + reopening its fil
 entries, the same end offset and an unchanged file. -/
 theorem refines_list (ver : Bytes) (hver : ver.length ≤ 8) (ops : List Op) (hok : OkFrom [] ops) :
     ∃ j, run (create ver) ops = .ok j ∧ j.entries = runList [] ops ∧
-      ∃ j', openDisk j.disk = .ok (j', []) ∧ j'.entries = runList [] ops ∧ j'.disk = j.disk ∧
+      ∃ j', openDisk ver j.disk = .ok (j', []) ∧ j'.entries = runList [] ops ∧ j'.disk = j.disk ∧
         j'.cur = j.cur := by
   obtain ⟨j, h1, h2⟩ := run_reach (create_reach ver hver) ops hok
-  refine ⟨j, h1, h2.ents, _, openDisk_of_DInv h2.inv.1, h2.ents, rfl, ?_⟩
+  have hjv : j.ver = ver := run_ver (create_reach ver hver) ops j h1
+  refine ⟨j, h1, h2.ents, _, openDisk_of_DInv ver h2.inv.1, h2.ents, rfl, ?_⟩
   rw [h2.inv.2]
 
 example : OkFrom [] [.add ⟨[1, 2, 3], 1, 0⟩, .add ⟨[], 2, 0⟩, .setCommit 2, .timer, .delTo 1, .reopen,
@@ -47,7 +50,7 @@ example : OkFrom [] [.add ⟨[1, 2, 3], 1, 0⟩, .add ⟨[], 2, 0⟩, .setCommit
 theorem refines_list_total_bytes (ver : Bytes) (hver : ver.length ≤ 8) (ops : List Op)
     (h : WithinLimits ops) :
     ∃ j, run (create ver) ops = .ok j ∧ j.entries = runList [] ops ∧
-      ∃ j', openDisk j.disk = .ok (j', []) ∧ j'.entries = runList [] ops ∧ j'.disk = j.disk ∧
+      ∃ j', openDisk ver j.disk = .ok (j', []) ∧ j'.entries = runList [] ops ∧ j'.disk = j.disk ∧
         j'.cur = j.cur :=
   refines_list ver hver ops (totalBytes_ok ops [] (by simpa [encLen] using h.1) h.2)
 
@@ -77,32 +80,39 @@ theorem step_replays (ver : Bytes) (hver : ver.length ≤ 8) (ops : List Op) (op
       j'.disk = applyPrims j.disk ps ∧ ∀ k t, ps.length ≤ k → crashDisk j.disk ps k t = j'.disk := by
   rw [OkFrom_snoc] at hok
   obtain ⟨j, h1, h2⟩ := run_reach (create_reach ver hver) ops hok.1
+  have hjv : j.ver = ver := run_ver (create_reach ver hver) ops j h1
   obtain ⟨j', ps, a1, a2, _, _⟩ := crash_open h2 op hok.2
   exact ⟨j, j', ps, h1, a1, a2, fun k t hk => by rw [crashDisk_all _ _ _ _ hk, a2]⟩
 
-/-
-Full statement (FALSE of the code, see `crash_headdrop_counterexample`):
-theorem crash_contiguous … (same as below without `hop`) … CrashSpec (runList [] ops) op jc.entries
--/
-
-/-- Kill-safety of every operation except the head drop: after ANY operation sequence, for EVERY
-crash point `(k, t)` of the next operation (`k` primitive writes done, `t` bytes of the next one,
-record stores byte-torn), the journal reopens and holds what the property demands: `add` is all or
-nothing, `clear` old or empty, the tail drop a prefix containing everything it keeps, commit-index
-update / timer / reopen the old entries.
-Partial: excludes `op = deleteEntriesTo n` (defect D15). -/
-theorem crash_contiguous_partial (ver : Bytes) (hver : ver.length ≤ 8) (ops : List Op) (op : Op)
-    (hok : OkFrom [] (ops ++ [op])) (hop : ∀ n, op ≠ .delTo n) (k t : Nat) :
+/-- Kill-safety of EVERY operation (full statement): after ANY operation sequence, for EVERY crash
+point `(k, t)` of the next operation (`k` primitive writes done, `t` bytes of the next one, record
+and tmp-file stores byte-torn), the journal reopens and holds what the property demands: `add` is all
+or nothing, `clear` old or empty, the tail drop a prefix containing everything it keeps, the head drop
+the complete old journal (killed before the rename) or exactly the kept suffix (after it),
+commit-index update / timer / reopen the old entries. -/
+theorem crash_contiguous (ver : Bytes) (hver : ver.length ≤ 8) (ops : List Op) (op : Op)
+    (hok : OkFrom [] (ops ++ [op])) (k t : Nat) :
     ∃ j j' ps jc, run (create ver) ops = .ok j ∧ j.step op = .ok (j', ps) ∧
-      openDisk (crashDisk j.disk ps k t) = .ok (jc, []) ∧ CrashSpec (runList [] ops) op jc.entries := by
+      openDisk ver (crashDisk j.disk ps k t) = .ok (jc, []) ∧ CrashSpec (runList [] ops) op jc.entries := by
   rw [OkFrom_snoc] at hok
   obtain ⟨j, h1, h2⟩ := run_reach (create_reach ver hver) ops hok.1
+  have hjv : j.ver = ver := run_ver (create_reach ver hver) ops j h1
   obtain ⟨j', ps, a1, _, _, a4⟩ := crash_open h2 op hok.2
   obtain ⟨jc, c1, c2, _, _⟩ := a4 k t
-  exact ⟨j, j', ps, jc, h1, a1, c1, c2.spec hop⟩
+  rw [hjv] at c1
+  exact ⟨j, j', ps, jc, h1, a1, c1, c2⟩
 
-example : OkFrom [] ([.add ⟨[1], 1, 0⟩, .add ⟨[2], 2, 0⟩] ++ [.delFrom 1]) ∧ ∀ n, Op.delFrom 1 ≠ .delTo n := by
-  refine ⟨by simp [OkFrom, ValidEntry, encLen, recLen, U32, U64], fun n h => by cases h⟩
+example : OkFrom [] ([.add ⟨[1], 1, 0⟩, .add ⟨[2], 2, 0⟩] ++ [.delTo 1]) := by
+  simp [OkFrom, ValidEntry, encLen, recLen, U32, U64]
+
+/-- The head drop spelled out: killed anywhere, the reopened journal is the complete old one or
+exactly the entries it keeps. -/
+theorem crash_headdrop_old_or_new (ver : Bytes) (hver : ver.length ≤ 8) (ops : List Op) (n : Nat)
+    (hok : OkFrom [] ops) (k t : Nat) :
+    ∃ j j' ps jc, run (create ver) ops = .ok j ∧ j.step (.delTo n) = .ok (j', ps) ∧
+      openDisk ver (crashDisk j.disk ps k t) = .ok (jc, []) ∧
+      (jc.entries = runList [] ops ∨ jc.entries = (runList [] ops).drop n) :=
+  crash_contiguous ver hver ops (.delTo n) ((OkFrom_snoc _ _ _).mpr ⟨hok, trivial⟩) k t
 
 /-- `CrashSpec` in the words of the property: the entries found are a contiguous range
 `old[a : a+b]` of the previous entries — or, for an append that completed, `old ++ [e]`. -/
@@ -123,8 +133,9 @@ theorem crash_spec_is_contiguous_range (old : List Entry) (op : Op) (r : List En
     obtain ⟨m, _, rfl⟩ := h
     exact Or.inl ⟨0, m, by simp⟩
   | delTo n =>
-    obtain ⟨a, _, rfl⟩ := h
-    exact Or.inl ⟨a, (old.drop a).length, (List.take_length).symm⟩
+    rcases h with rfl | rfl
+    · exact Or.inl ⟨0, _, hall⟩
+    · exact Or.inl ⟨n, (old.drop n).length, (List.take_length).symm⟩
   | setCommit v => exact Or.inl ⟨0, _, h.trans hall⟩
   | timer => exact Or.inl ⟨0, _, h.trans hall⟩
   | reopen => exact Or.inl ⟨0, _, h.trans hall⟩
@@ -136,17 +147,19 @@ after a crash, for any number of kills. -/
 theorem refines_list_after_crash (ver : Bytes) (hver : ver.length ≤ 8) (ops : List Op) (op : Op)
     (hok : OkFrom [] (ops ++ [op])) (k t : Nat) :
     ∃ j j' ps jc, run (create ver) ops = .ok j ∧ j.step op = .ok (j', ps) ∧
-      openDisk (crashDisk j.disk ps k t) = .ok (jc, []) ∧
+      openDisk ver (crashDisk j.disk ps k t) = .ok (jc, []) ∧
       ∀ ops', OkFrom jc.entries ops' →
         ∃ j2, run jc ops' = .ok j2 ∧ j2.entries = runList jc.entries ops' ∧
-          ∃ j3, openDisk j2.disk = .ok (j3, []) ∧ j3.entries = runList jc.entries ops' := by
+          ∃ j3, openDisk ver j2.disk = .ok (j3, []) ∧ j3.entries = runList jc.entries ops' := by
   rw [OkFrom_snoc] at hok
   obtain ⟨j, h1, h2⟩ := run_reach (create_reach ver hver) ops hok.1
+  have hjv : j.ver = ver := run_ver (create_reach ver hver) ops j h1
   obtain ⟨j', ps, a1, _, _, a4⟩ := crash_open h2 op hok.2
   obtain ⟨jc, c1, _, c3, _⟩ := a4 k t
+  rw [hjv] at c1
   refine ⟨j, j', ps, jc, h1, a1, c1, fun ops' hok' => ?_⟩
   obtain ⟨j2, b1, b2⟩ := run_reach c3 ops' hok'
-  exact ⟨j2, b1, b2.ents, _, openDisk_of_DInv b2.inv.1, b2.ents⟩
+  exact ⟨j2, b1, b2.ents, _, openDisk_of_DInv ver b2.inv.1, b2.ents⟩
 
 /-- Stronger tearing model for the append: with the header word not yet updated, the record area may
 hold ANY bytes (every interleaving of old, new or other bytes, not only a prefix of the record) and
@@ -155,65 +168,59 @@ is assumed atomic. -/
 theorem crash_add_any_tear (ver : Bytes) (hver : ver.length ≤ 8) (ops : List Op) (e : Entry)
     (hok : OkFrom [] ops) (g : Bytes) (hg : g.length ≤ recLen e) :
     ∃ j jc, run (create ver) ops = .ok j ∧
-      openDisk { j.disk with file := storeAt (rfWrite j.disk.file j.cur (encRecord e)).1 j.cur g }
+      openDisk ver { j.disk with file := storeAt (rfWrite j.disk.file j.cur (encRecord e)).1 j.cur g }
         = .ok (jc, []) ∧ jc.entries = runList [] ops := by
   obtain ⟨j, h1, h2⟩ := run_reach (create_reach ver hver) ops hok
+  have hjv : j.ver = ver := run_ver (create_reach ver hver) ops j h1
   obtain ⟨jc, c1, c2⟩ := add_any_garbage h2 e g hg
+  rw [hjv] at c1
   exact ⟨j, jc, h1, c1, c2⟩
 
-/-- The head drop at every crash point: the journal still reopens, and holds either all previous
-entries or a prefix of the entries it was meant to keep — a contiguous range of the previous entries,
-but not necessarily *all* it was meant to keep. -/
-theorem crash_headdrop_range (ver : Bytes) (hver : ver.length ≤ 8) (ops : List Op) (n : Nat)
-    (hok : OkFrom [] ops) (k t : Nat) :
-    ∃ j j' ps jc, run (create ver) ops = .ok j ∧ j.step (.delTo n) = .ok (j', ps) ∧
-      openDisk (crashDisk j.disk ps k t) = .ok (jc, []) ∧
-      (jc.entries = runList [] ops ∨ ∃ m, jc.entries = ((runList [] ops).drop n).take m) := by
-  obtain ⟨j, h1, h2⟩ := run_reach (create_reach ver hver) ops hok
-  obtain ⟨j', ps, a1, _, _, a4⟩ := crash_open h2 (.delTo n) trivial
-  obtain ⟨jc, c1, c2, _, _⟩ := a4 k t
-  exact ⟨j, j', ps, jc, h1, a1, c1, c2⟩
+/-- A left-over `<journal>.tmp` (from a head drop killed before its rename) is ignored by a reopen:
+the outcome, entries, offset and commit index do not depend on it. -/
+theorem stale_tmp_ignored (ver : Bytes) (d : Disk) (x : Option Bytes) :
+    (match openDisk ver { d with jtmp := x }, openDisk ver d with
+     | .ok (a, _), .ok (b, _) => a.entries = b.entries ∧ a.cur = b.cur ∧ a.commitIndex = b.commitIndex ∧
+         a.disk.file = b.disk.file
+     | .error e1, .error e2 => e1 = e2
+     | _, _ => False) := by
+  rw [openDisk_jtmp]
+  cases openDisk ver d with
+  | error e => rfl
+  | ok r => exact ⟨rfl, rfl, rfl, rfl⟩
 
-/-- D15, in general: a kill right after the first primitive write of ANY head drop (the header
-store of its `clear()`) leaves an EMPTY journal, whatever it was meant to keep. -/
-theorem crash_headdrop_loses_all (ver : Bytes) (hver : ver.length ≤ 8) (ops : List Op) (n : Nat)
-    (hok : OkFrom [] ops) (t : Nat) :
-    ∃ j j' ps jc, run (create ver) ops = .ok j ∧ j.step (.delTo n) = .ok (j', ps) ∧
-      openDisk (crashDisk j.disk ps 1 t) = .ok (jc, []) ∧ jc.entries = [] := by
-  obtain ⟨j, h1, h2⟩ := run_reach (create_reach ver hver) ops hok
-  obtain ⟨j', ps, a1, a2⟩ := crash_delTo_after_clear h2 n
-  obtain ⟨jc, c1, c2⟩ := a2 t
-  exact ⟨j, j', ps, jc, h1, a1, c1, c2⟩
-
-/-- D15, concrete: two entries, `deleteEntriesTo(1)` killed after its first primitive write; the
-reopened journal is empty although entry 2 was to be kept — `CrashSpec` fails. -/
-theorem crash_headdrop_counterexample :
-    ∃ (ver : Bytes) (ops : List Op) (n k t : Nat) (j j' : FJ) (ps : List Prim) (jc : FJ),
-      ver.length ≤ 8 ∧ OkFrom [] (ops ++ [.delTo n]) ∧ run (create ver) ops = .ok j ∧
-      j.step (.delTo n) = .ok (j', ps) ∧ openDisk (crashDisk j.disk ps k t) = .ok (jc, []) ∧
+/-- D15 as it was BEFORE the repair, kept as documentation: the old head drop (`FJ.delToOld` =
+`clear()` then re-`add` in place; not what `FJ.step` executes any more) killed after its first
+primitive write leaves an empty journal although entry 2 was to be kept — `CrashSpec` fails. -/
+theorem old_headdrop_counterexample :
+    ∃ (ver : Bytes) (ops : List Op) (n t : Nat) (j j' : FJ) (ps : List Prim) (jc : FJ),
+      ver.length ≤ 8 ∧ OkFrom [] ops ∧ run (create ver) ops = .ok j ∧
+      j.delToOld n = .ok (j', ps) ∧ openDisk ver (crashDisk j.disk ps 1 t) = .ok (jc, []) ∧
       ¬ CrashSpec (runList [] ops) (.delTo n) jc.entries := by
   have hok : OkFrom [] [.add ⟨[1], 1, 0⟩, .add ⟨[2], 2, 0⟩] := by
     simp [OkFrom, ValidEntry, encLen, recLen, U32, U64]
-  obtain ⟨j, j', ps, jc, h1, h2, h3, h4⟩ :=
-    crash_headdrop_loses_all [48] (by decide) [.add ⟨[1], 1, 0⟩, .add ⟨[2], 2, 0⟩] 1 hok 0
-  refine ⟨[48], _, 1, 1, 0, j, j', ps, jc, by decide, ?_, h1, h2, h3, ?_⟩
-  · rw [OkFrom_snoc]; exact ⟨hok, trivial⟩
-  · rw [h4]
-    rintro ⟨a, ha, h⟩
-    have : a = 0 ∨ a = 1 := by omega
-    rcases this with rfl | rfl <;> simp [runList, listStep] at h
+  obtain ⟨j, h1, h2⟩ := run_reach (create_reach [48] (by decide)) _ hok
+  have hjv : j.ver = [48] := run_ver (create_reach [48] (by decide)) _ j h1
+  obtain ⟨j', ps, a1, a2⟩ := crash_delToOld_after_clear h2 1
+  obtain ⟨jc, c1, c2⟩ := a2 0
+  rw [hjv] at c1
+  refine ⟨[48], _, 1, 0, j, j', ps, jc, by decide, hok, h1, a1, c1, ?_⟩
+  rw [c2]
+  rintro (h | h) <;> simp [runList, listStep] at h
 
 /-- The commit index read after a kill at ANY crash point of ANY operation (head drop included) and
 a reopen is the default 1 or a value that was passed to `setRaftCommitIndex` before. -/
 theorem meta_was_set (ver : Bytes) (hver : ver.length ≤ 8) (ops : List Op) (op : Op)
     (hok : OkFrom [] (ops ++ [op])) (k t : Nat) :
     ∃ j j' ps jc, run (create ver) ops = .ok j ∧ j.step op = .ok (j', ps) ∧
-      openDisk (crashDisk j.disk ps k t) = .ok (jc, []) ∧
+      openDisk ver (crashDisk j.disk ps k t) = .ok (jc, []) ∧
       (jc.commitIndex = 1 ∨ jc.commitIndex ∈ setValues ops) := by
   rw [OkFrom_snoc] at hok
   obtain ⟨j, h1, h2⟩ := run_reach (create_reach ver hver) ops hok.1
+  have hjv : j.ver = ver := run_ver (create_reach ver hver) ops j h1
   obtain ⟨j', ps, a1, _, _, a4⟩ := crash_open h2 op hok.2
   obtain ⟨jc, c1, _, _, c3⟩ := a4 k t
+  rw [hjv] at c1
   exact ⟨j, j', ps, jc, h1, a1, c1, by simpa using c3⟩
 
 /-- A commit index that was set and then flushed by `onOneSecondTimer` is the one a reopen reports
@@ -221,9 +228,10 @@ theorem meta_was_set (ver : Bytes) (hver : ver.length ≤ 8) (ops : List Op) (op
 theorem meta_persisted (ver : Bytes) (hver : ver.length ≤ 8) (ops : List Op) (v : Nat)
     (hok : OkFrom [] ops) :
     ∃ j j', run (create ver) (ops ++ [.setCommit v, .timer]) = .ok j ∧
-      openDisk j.disk = .ok (j', []) ∧ j'.commitIndex = v ∧ j'.entries = runList [] ops := by
+      openDisk ver j.disk = .ok (j', []) ∧ j'.commitIndex = v ∧ j'.entries = runList [] ops := by
   obtain ⟨j0, h1, h2⟩ := run_reach (create_reach ver hver) ops hok
   obtain ⟨j1, p1, j2, p2, jc, a1, a2, a3, a4, a5⟩ := set_timer_persists h2 v
+  rw [run_ver (create_reach ver hver) ops j0 h1] at a3
   refine ⟨j2, jc, ?_, a3, a4, a5⟩
   rw [run_append, h1]
   simp only [run, a1, a2]
